@@ -300,6 +300,20 @@ class Runner:
 
 
 def run_case(c):
+    # "default_backend": the class registered as DEFAULT_BACKEND for the duration of the case
+    # (what register_parallel_backend(name, factory, make_default=True) does)
+    dk = c.get("default_backend")
+    if dk is None:
+        return run_case_(c)
+    saved = jp.DEFAULT_BACKEND
+    jp.register_parallel_backend(NAMES[dk], KINDS[dk], make_default=True)
+    try:
+        return run_case_(c)
+    finally:
+        jp.DEFAULT_BACKEND = saved
+
+
+def run_case_(c):
     n = len(c["threads"])
     sched = Sched(c.get("schedule", []), n)
     runners = [Runner(t, sched) for t in range(n)]
